@@ -38,7 +38,7 @@ def demo : Schema :=
       mkT .object "Query" [] [{ name := "node", ty := .named "Node", req := [], args := [] },
                               { name := "both", ty := .named "Both", req := [], args := [] },
                               { name := "secret", ty := .named "Secret", req := ["a"], args := [] }]],
-    query := "Query", mutation := none }
+    query := "Query", mutation := none, subscription := none }
 
 /-- Two interfaces whose only common implementation is gated (the F-13d shape). -/
 def demoSpread : Schema :=
@@ -50,7 +50,7 @@ def demoSpread : Schema :=
       mkT .object "OnlyJ" [] [idF] ["J"],
       mkT .object "Both" ["a"] [idF] ["I", "J"],
       mkT .object "Query" [] [{ name := "i", ty := .named "I", req := [], args := [] }]],
-    query := "Query", mutation := none }
+    query := "Query", mutation := none, subscription := none }
 
 /-- The empty feature set. -/
 def noF : Feats := fun _ => false
@@ -80,7 +80,7 @@ example :
     let bad : Schema :=
       { types := [mkT .scalar "ID" [], mkT .object "Secret" ["a"] [idF],
                   mkT .object "Query" [] [{ name := "secret", ty := .named "Secret", req := [], args := [] }]],
-        query := "Query", mutation := none }
+        query := "Query", mutation := none, subscription := none }
     Accepted bad = false ∧ Accepted (erase bad noF) = false := by decide
 
 /-! ## The view -/
@@ -91,6 +91,7 @@ example :
 structure ViewAgree (S : Schema) (F : Feats) : Prop where
   queryType : (view (erase S F) top).queryType = (view S F).queryType
   mutationType : (view (erase S F) top).mutationType = (view S F).mutationType
+  subscriptionType : (view (erase S F) top).subscriptionType = (view S F).subscriptionType
   lookupF : ∀ n, (view (erase S F) top).lookupF n = (view S F).lookupF n
   typeByName : ∀ n, (view (erase S F) top).typeByName n = (view S F).typeByName n
   typesListing : (view (erase S F) top).typesListing = (view S F).typesListing
@@ -115,6 +116,7 @@ theorem view_erase (S : Schema) (F : Feats) (hA : Accepted S = true) (hR : Roots
   have hu := Accepted.nodup hA
   { queryType := rfl
     mutationType := erase_mutation hA hR
+    subscriptionType := erase_subscription hA hR
     lookupF := lookupF_erase hu
     typeByName := typeByName_erase hu
     typesListing := typesListing_erase
@@ -136,6 +138,7 @@ theorem view_erase (S : Schema) (F : Feats) (hA : Accepted S = true) (hR : Roots
 structure ViewClosed (S : Schema) (F : Feats) : Prop where
   queryType : S.visible F (view S F).queryType = true
   mutationType : ∀ m, (view S F).mutationType = some m → S.visible F m = true
+  subscriptionType : ∀ m, (view S F).subscriptionType = some m → S.visible F m = true
   lookupF : ∀ n k, (view S F).lookupF n = some k → S.notHidden F n = true
   typeByName : ∀ n p, (view S F).typeByName n = some p → S.visible F p = true
   typesListing : ∀ p ∈ (view S F).typesListing, S.visible F p = true
@@ -154,6 +157,7 @@ theorem view_closed (S : Schema) (F : Feats) (hA : Accepted S = true) (hR : Root
     ViewClosed S F :=
   { queryType := query_visible hA hR
     mutationType := fun _ hm => mutation_visible hA hR hm
+    subscriptionType := fun _ hm => subscription_visible hA hR hm
     lookupF := fun _ _ h => notHidden_of_lookupF hA h
     typeByName := fun _ _ h => typeByName_closed h
     typesListing := typesListing_closed (Accepted.nodup hA)
@@ -389,7 +393,7 @@ def demoGatedRoot : Schema :=
       mkT .scalar "Int" [],
       mkT .object "Mutation" ["a"] [{ name := "touch", ty := .named "Int", req := [], args := [] }],
       mkT .object "Query" [] [{ name := "ok", ty := .named "Int", req := [], args := [] }]],
-    query := "Query", mutation := some "Mutation" }
+    query := "Query", mutation := some "Mutation", subscription := none }
 
 /-- F-13f (open finding): the hypothesis `RootsUngated` cannot be dropped. `schema.New` accepts a root
     operation type that carries required features; the code consults `MutationType()` without a
